@@ -1,11 +1,13 @@
 """Property -> verification units. Read by bin/check."""
 
 HDR = 'datastructures::messages::header::verif_kani::'
+MSG = 'datastructures::messages::verif_kani_msg::'
 
 # module file (relative to repo root) -> [(module name, harness file under kani/src)]
 INJECT = {
     'statime/src/lib.rs': [('verif_gen', 'gen.rs')],
     'statime/src/datastructures/messages/header.rs': [('verif_kani', 'header.rs')],
+    'statime/src/datastructures/messages/mod.rs': [('verif_kani_msg', 'messages.rs')],
 }
 
 
@@ -13,6 +15,7 @@ def module_file_for(modpath):
     """harness module path -> (repo file, harness source)"""
     table = {
         'datastructures::messages::header::verif_kani': ('statime/src/datastructures/messages/header.rs', 'header.rs'),
+        'datastructures::messages::verif_kani_msg': ('statime/src/datastructures/messages/mod.rs', 'messages.rs'),
     }
     return table[modpath]
 
@@ -52,6 +55,15 @@ PROPS = {
             H(HDR, 'c04_header_decode_short_is_error'),
             H(HDR, 'c04_header_encode_matches_spec_and_round_trips', functions=['statime/src/datastructures/messages/header.rs: Header::serialize_header']),
             H(HDR, 'c04_header_decode_encode_decode'),
+            H(MSG, 'c04_enum_clock_accuracy', functions=['statime/src/datastructures/common/clock_accuracy.rs: ClockAccuracy::{from_primitive,to_primitive,cmp_numeric}']),
+            H(MSG, 'c04_enum_time_source', functions=['statime/src/datastructures/common/time_source.rs: TimeSource::{from_primitive,to_primitive}']),
+            H(MSG, 'c04_enum_tlv_type', functions=['statime/src/datastructures/common/tlv.rs: TlvType::{from_primitive,to_primitive,announce_propagate}']),
+            H(MSG, 'c04_enum_message_type_control_action', functions=['statime/src/datastructures/messages/mod.rs: MessageType::try_from', 'statime/src/datastructures/messages/control_field.rs: ControlField::{from,to_primitive}']),
+            H(MSG, 'c04_body_sync_delayreq_followup', functions=['statime/src/datastructures/messages/mod.rs: MessageBody::{deserialize,serialize,wire_size,content_type}', 'statime/src/datastructures/messages/sync.rs: SyncMessage::{serialize_content,deserialize_content}', 'statime/src/datastructures/messages/delay_req.rs: DelayReqMessage::{serialize_content,deserialize_content}', 'statime/src/datastructures/messages/follow_up.rs: FollowUpMessage::{serialize_content,deserialize_content}', 'statime/src/datastructures/common/timestamp.rs: WireTimestamp::{serialize,deserialize}']),
+            H(MSG, 'c04_body_delayresp_pdelayresp_pdelayrespfollowup', functions=['statime/src/datastructures/messages/delay_resp.rs: DelayRespMessage::{serialize_content,deserialize_content}', 'statime/src/datastructures/messages/p_delay_resp.rs: PDelayRespMessage::{serialize_content,deserialize_content}', 'statime/src/datastructures/messages/p_delay_resp_follow_up.rs: PDelayRespFollowUpMessage::{serialize_content,deserialize_content}', 'statime/src/datastructures/common/port_identity.rs: PortIdentity::{serialize,deserialize}']),
+            H(MSG, 'c04_body_pdelayreq', functions=['statime/src/datastructures/messages/p_delay_req.rs: PDelayReqMessage::{serialize_content,deserialize_content}']),
+            H(MSG, 'c04_body_announce', functions=['statime/src/datastructures/messages/announce.rs: AnnounceMessage::{serialize_content,deserialize_content}', 'statime/src/datastructures/common/clock_quality.rs: ClockQuality::{serialize,deserialize}']),
+            H(MSG, 'c04_body_signaling_management_self_consistent'),
         ],
     ),
 }
